@@ -8,6 +8,16 @@
 
 #define TOST(i) static_cast<size_t>(i)
 
+// Verification instrumentation (branch counters); expands to nothing unless
+// compiled with -DBIOPP_BPP_CORE_VERIF.
+#ifdef BIOPP_BPP_CORE_VERIF
+#define BPP_EIGENVALUE_VERIF_BR(k, c) (++verifHits_[2 * (k) + ((c) ? 1 : 0)])
+#define BPP_EIGENVALUE_VERIF_HIT(k) (++verifHits_[2 * (k) + 1])
+#else
+#define BPP_EIGENVALUE_VERIF_BR(k, c)
+#define BPP_EIGENVALUE_VERIF_HIT(k)
+#endif
+
 #include <algorithm>
 // for min(), max() below
 
@@ -115,6 +125,21 @@ private:
    */
   std::vector<Real> ort_;
 
+#ifdef BIOPP_BPP_CORE_VERIF
+  /**
+   * @brief Verification instrumentation: branch counters (outcome false at 2k, true at 2k+1)
+   * and an event log of the bookkeeping steps of tql2 / hqr2 (records: code, length, payload).
+   */
+  std::vector<unsigned long> verifHits_ = std::vector<unsigned long>(128, 0);
+  std::vector<Real> verifLog_ = std::vector<Real>();
+  void verifRecord(int code, const std::vector<Real>& payload)
+  {
+    verifLog_.push_back(static_cast<Real>(code));
+    verifLog_.push_back(static_cast<Real>(payload.size()));
+    verifLog_.insert(verifLog_.end(), payload.begin(), payload.end());
+  }
+#endif
+
   /**
    * @brief Symmetric Householder reduction to tridiagonal form.
    *
@@ -142,6 +167,14 @@ private:
       {
         scale = scale + NumTools::abs<Real>(d_[k]);
       }
+#ifdef BIOPP_BPP_CORE_VERIF
+      {
+        bool verifStale = false;
+        for (size_t j = 0; j + 1 < i; ++j) { verifStale = verifStale || (V_(i - 1, j) != V_(j, i - 1)); }
+        BPP_EIGENVALUE_VERIF_BR(3, scale == 0.0 && verifStale);
+      }
+#endif
+      BPP_EIGENVALUE_VERIF_BR(0, scale == 0.0);
       if (scale == 0.0)
       {
         e_[i] = d_[i - 1];
@@ -163,6 +196,7 @@ private:
         }
         Real f = d_[i - 1];
         Real g = sqrt(h);
+        BPP_EIGENVALUE_VERIF_BR(1, f > 0);
         if (f > 0)
         {
           g = -g;
@@ -222,6 +256,7 @@ private:
       V_(n_ - 1, i) = V_(i, i);
       V_(i, i) = 1.0;
       Real h = d_[i + 1];
+      BPP_EIGENVALUE_VERIF_BR(2, h != 0.0);
       if (h != 0.0)
       {
         for (size_t k = 0; k <= i; k++)
@@ -294,6 +329,8 @@ private:
       // If m == l, d_[l] is an eigenvalue,
       // otherwise, iterate.
 
+      BPP_EIGENVALUE_VERIF_BR(5, m > l);
+      BPP_EIGENVALUE_VERIF_BR(6, m > l && m + 1 < n_);
       if (m > l)
       {
         int iter = 0;
@@ -303,9 +340,16 @@ private:
 
           // Compute implicit shift
 
+#ifdef BIOPP_BPP_CORE_VERIF
+          std::vector<Real> verifD0(d_);
+#endif
           Real g = d_[l];
           Real p = (d_[l + 1] - g) / (2.0 * e_[l]);
           Real r = hypot(p, 1.0);
+#ifdef BIOPP_BPP_CORE_VERIF
+          Real verifR = r;
+#endif
+          BPP_EIGENVALUE_VERIF_BR(7, p < 0);
           if (p < 0)
           {
             r = -r;
@@ -319,6 +363,16 @@ private:
             d_[i] -= h;
           }
           f = f + h;
+#ifdef BIOPP_BPP_CORE_VERIF
+          {
+            std::vector<Real> rec;
+            rec.push_back(static_cast<Real>(l)); rec.push_back(static_cast<Real>(m));
+            rec.push_back(e_[l]); rec.push_back(verifR); rec.push_back(f);
+            rec.insert(rec.end(), verifD0.begin(), verifD0.end());
+            rec.insert(rec.end(), d_.begin(), d_.end());
+            verifRecord(1, rec);
+          }
+#endif
 
           // Implicit QL transformation.
 
@@ -357,15 +411,33 @@ private:
           p = -s * s2 * c3 * el1 * e_[l] / dl1;
           e_[l] = s * p;
           d_[l] = c * p;
+          BPP_EIGENVALUE_VERIF_BR(8, NumTools::abs<Real>(e_[l]) > eps * tst1);
 
           // Check for convergence.
         }
         while (NumTools::abs<Real>(e_[l]) > eps * tst1);
       }
+#ifdef BIOPP_BPP_CORE_VERIF
+      Real verifDl = d_[l];
+#endif
       d_[l] = d_[l] + f;
+#ifdef BIOPP_BPP_CORE_VERIF
+      {
+        std::vector<Real> rec;
+        rec.push_back(static_cast<Real>(l)); rec.push_back(verifDl); rec.push_back(f); rec.push_back(d_[l]);
+        verifRecord(2, rec);
+      }
+#endif
       e_[l] = 0.0;
     }
 
+#ifdef BIOPP_BPP_CORE_VERIF
+    {
+      std::vector<Real> rec(d_);
+      for (size_t i = 0; i < n_; i++) { for (size_t j = 0; j < n_; j++) { rec.push_back(V_(i, j)); } }
+      verifRecord(3, rec);
+    }
+#endif
     // Sort eigenvalues and corresponding vectors.
 
     for (size_t i = 0; n_ > 0 && i < n_ - 1; i++)
@@ -374,12 +446,14 @@ private:
       Real p = d_[i];
       for (size_t j = i + 1; j < n_; j++)
       {
+        BPP_EIGENVALUE_VERIF_BR(9, d_[j] < p);
         if (d_[j] < p)
         {
           k = j;
           p = d_[j];
         }
       }
+      BPP_EIGENVALUE_VERIF_BR(10, k != i);
       if (k != i)
       {
         d_[k] = d_[i];
@@ -417,6 +491,7 @@ private:
       {
         scale = scale + NumTools::abs<Real>(H_(i, m - 1));
       }
+      BPP_EIGENVALUE_VERIF_BR(11, scale != 0.0);
       if (scale != 0.0)
       {
         // Compute Householder transformation.
@@ -428,6 +503,7 @@ private:
           h += ort_[i] * ort_[i];
         }
         Real g = sqrt(h);
+        BPP_EIGENVALUE_VERIF_BR(12, ort_[m] > 0);
         if (ort_[m] > 0)
         {
           g = -g;
@@ -482,6 +558,7 @@ private:
 
     for (size_t m = high - 1; m >= low + 1; --m)
     {
+      BPP_EIGENVALUE_VERIF_BR(13, H_(m, m - 1) != 0.0);
       if (H_(m, m - 1) != 0.0)
       {
         for (size_t i = m + 1; i <= high; ++i)
@@ -513,6 +590,7 @@ private:
   void cdiv(Real xr, Real xi, Real yr, Real yi)
   {
     Real r, d;
+    BPP_EIGENVALUE_VERIF_BR(14, NumTools::abs<Real>(yr) > NumTools::abs<Real>(yi));
     if (NumTools::abs<Real>(yr) > NumTools::abs<Real>(yi))
     {
       r = yi / yr;
@@ -576,10 +654,12 @@ private:
       while (l > low)
       {
         s = NumTools::abs<Real>(H_(TOST(l - 1), TOST(l - 1))) + NumTools::abs<Real>(H_(TOST(l), TOST(l)));
+        BPP_EIGENVALUE_VERIF_BR(15, s == 0.0);
         if (s == 0.0)
         {
           s = norm;
         }
+        BPP_EIGENVALUE_VERIF_BR(16, NumTools::abs<Real>(H_(TOST(l), TOST(l - 1))) < eps * s);
         if (NumTools::abs<Real>(H_(TOST(l), TOST(l - 1))) < eps * s)
         {
           break;
@@ -592,9 +672,22 @@ private:
 
       if (l == n)
       {
+        BPP_EIGENVALUE_VERIF_HIT(17);
+#ifdef BIOPP_BPP_CORE_VERIF
+        Real verifHnn = H_(TOST(n), TOST(n));
+#endif
         H_(TOST(n), TOST(n)) = H_(TOST(n), TOST(n)) + exshift;
         d_[TOST(n)] = H_(TOST(n), TOST(n));
         e_[TOST(n)] = 0.0;
+#ifdef BIOPP_BPP_CORE_VERIF
+        {
+          std::vector<Real> rec;
+          rec.push_back(static_cast<Real>(n)); rec.push_back(verifHnn); rec.push_back(exshift);
+          rec.push_back(d_[TOST(n)]); rec.push_back(e_[TOST(n)]);
+          for (int i = 0; i < n; i++) { rec.push_back(H_(TOST(i), TOST(i))); }
+          verifRecord(6, rec);
+        }
+#endif
         n--;
         iter = 0;
 
@@ -602,6 +695,10 @@ private:
       }
       else if (l == n - 1)
       {
+        BPP_EIGENVALUE_VERIF_HIT(18);
+#ifdef BIOPP_BPP_CORE_VERIF
+        Real verifBlock[4] = {H_(TOST(n - 1), TOST(n - 1)), H_(TOST(n - 1), TOST(n)), H_(TOST(n), TOST(n - 1)), H_(TOST(n), TOST(n))};
+#endif
         w = H_(TOST(n), TOST(n - 1)) * H_(TOST(n - 1), TOST(n));
         p = (H_(TOST(n - 1), TOST(n - 1)) - H_(TOST(n), TOST(n))) / 2.0;
         q = p * p + w;
@@ -612,8 +709,10 @@ private:
 
         // Real pair
 
+        BPP_EIGENVALUE_VERIF_BR(19, q >= 0);
         if (q >= 0)
         {
+          BPP_EIGENVALUE_VERIF_BR(20, p >= 0);
           if (p >= 0)
           {
             z = p + z;
@@ -624,6 +723,7 @@ private:
           }
           d_[TOST(n - 1)] = x + z;
           d_[TOST(n)] = d_[TOST(n - 1)];
+          BPP_EIGENVALUE_VERIF_BR(21, z != 0.0);
           if (z != 0.0)
           {
             d_[TOST(n)] = x - w / z;
@@ -674,6 +774,17 @@ private:
           e_[TOST(n - 1)] = z;
           e_[TOST(n)] = -z;
         }
+#ifdef BIOPP_BPP_CORE_VERIF
+        {
+          std::vector<Real> rec;
+          rec.push_back(static_cast<Real>(n));
+          rec.insert(rec.end(), verifBlock, verifBlock + 4);
+          rec.push_back(exshift);
+          rec.push_back(d_[TOST(n - 1)]); rec.push_back(d_[TOST(n)]); rec.push_back(e_[TOST(n - 1)]); rec.push_back(e_[TOST(n)]);
+          for (int i = 0; i < n - 1; i++) { rec.push_back(H_(TOST(i), TOST(i))); }
+          verifRecord(7, rec);
+        }
+#endif
         n = n - 2;
         iter = 0;
 
@@ -683,6 +794,7 @@ private:
       {
         // Form shift
 
+        BPP_EIGENVALUE_VERIF_HIT(22);
         x = H_(TOST(n), TOST(n));
         y = 0.0;
         w = 0.0;
@@ -691,6 +803,14 @@ private:
           y = H_(TOST(n - 1), TOST(n - 1));
           w = H_(TOST(n), TOST(n - 1)) * H_(TOST(n - 1), TOST(n));
         }
+
+#ifdef BIOPP_BPP_CORE_VERIF
+        std::vector<Real> verifDiag0;
+        if (iter == 10 || iter == 30)
+        {
+          for (int i = 0; i <= n; i++) { verifDiag0.push_back(H_(TOST(i), TOST(i))); }
+        }
+#endif
 
         // Wilkinson's original ad hoc shift
 
@@ -701,19 +821,36 @@ private:
           {
             H_(TOST(i), TOST(i)) -= x;
           }
+#ifdef BIOPP_BPP_CORE_VERIF
+          BPP_EIGENVALUE_VERIF_HIT(23);
+          {
+            std::vector<Real> rec;
+            rec.push_back(static_cast<Real>(n)); rec.push_back(x); rec.push_back(exshift);
+            rec.insert(rec.end(), verifDiag0.begin(), verifDiag0.end());
+            for (int i = 0; i <= n; i++) { rec.push_back(H_(TOST(i), TOST(i))); }
+            verifRecord(4, rec);
+          }
+#endif
           s = NumTools::abs<Real>(H_(TOST(n), TOST(n - 1))) + NumTools::abs<Real>(H_(TOST(n - 1), TOST(n - 2)));
           x = y = 0.75 * s;
           w = -0.4375 * s * s;
         }
 
         // MATLAB's new ad hoc shift
+        BPP_EIGENVALUE_VERIF_BR(24, iter == 30);
         if (iter == 30)
         {
+#ifdef BIOPP_BPP_CORE_VERIF
+          Real verifS0 = (y - x) / 2.0;
+          verifS0 = verifS0 * verifS0 + w;
+          BPP_EIGENVALUE_VERIF_BR(25, verifS0 > 0);
+#endif
           s = (y - x) / 2.0;
           s = s * s + w;
           if (s > 0)
           {
             s = sqrt(s);
+            BPP_EIGENVALUE_VERIF_BR(26, y < x);
             if (y < x)
             {
               s = -s;
@@ -724,6 +861,16 @@ private:
               H_(TOST(i), TOST(i)) -= s;
             }
             exshift += s;
+#ifdef BIOPP_BPP_CORE_VERIF
+            {
+              std::vector<Real> rec;
+              rec.push_back(static_cast<Real>(n)); rec.push_back(x); rec.push_back(y); rec.push_back(w);
+              rec.push_back(s); rec.push_back(exshift);
+              rec.insert(rec.end(), verifDiag0.begin(), verifDiag0.end());
+              for (int i = 0; i <= n; i++) { rec.push_back(H_(TOST(i), TOST(i))); }
+              verifRecord(5, rec);
+            }
+#endif
             x = y = w = 0.964;
           }
         }
@@ -745,6 +892,7 @@ private:
           p = p / s;
           q = q / s;
           r = r / s;
+          BPP_EIGENVALUE_VERIF_BR(27, m == l);
           if (m == l)
           {
             break;
@@ -753,8 +901,10 @@ private:
               eps * (NumTools::abs<Real>(p) * (NumTools::abs<Real>(H_(TOST(m - 1), TOST(m - 1))) + NumTools::abs<Real>(z) +
               NumTools::abs<Real>(H_(TOST(m + 1), TOST(m + 1))))))
           {
+            BPP_EIGENVALUE_VERIF_HIT(29);
             break;
           }
+          BPP_EIGENVALUE_VERIF_HIT(28);
           m--;
         }
 
@@ -772,12 +922,15 @@ private:
         for (int k = m; k <= n - 1; k++)
         {
           int notlast = (k != n - 1);
+          BPP_EIGENVALUE_VERIF_BR(30, k != m);
+          BPP_EIGENVALUE_VERIF_BR(36, notlast != 0);
           if (k != m)
           {
             p = H_(TOST(k), TOST(k - 1));
             q = H_(TOST(k + 1), TOST(k - 1));
             r = (notlast ? H_(TOST(k + 2), TOST(k - 1)) : 0.0);
             x = NumTools::abs<Real>(p) + NumTools::abs<Real>(q) + NumTools::abs<Real>(r);
+            BPP_EIGENVALUE_VERIF_BR(31, x != 0.0);
             if (x != 0.0)
             {
               p = p / x;
@@ -785,17 +938,21 @@ private:
               r = r / x;
             }
           }
+          BPP_EIGENVALUE_VERIF_BR(32, x == 0.0);
           if (x == 0.0)
           {
             break;
           }
           s = sqrt(p * p + q * q + r * r);
+          BPP_EIGENVALUE_VERIF_BR(33, p < 0);
           if (p < 0)
           {
             s = -s;
           }
+          BPP_EIGENVALUE_VERIF_BR(34, s != 0);
           if (s != 0)
           {
+            BPP_EIGENVALUE_VERIF_BR(35, k == m && l != m);
             if (k != m)
             {
               H_(TOST(k), TOST(k - 1)) = -s * x;
@@ -859,6 +1016,7 @@ private:
 
     // Backsubstitute to find vectors of upper triangular form
 
+    BPP_EIGENVALUE_VERIF_BR(37, norm == 0.0);
     if (norm == 0.0)
     {
       return;
@@ -871,6 +1029,8 @@ private:
 
       // Real vector
 
+      BPP_EIGENVALUE_VERIF_BR(38, q == 0);
+      BPP_EIGENVALUE_VERIF_BR(40, q > 0);
       if (q == 0)
       {
         int l = n;
@@ -883,6 +1043,7 @@ private:
           {
             r = r + H_(TOST(i), TOST(j)) * H_(TOST(j), TOST(n));
           }
+          BPP_EIGENVALUE_VERIF_BR(41, e_[TOST(i)] < 0.0);
           if (e_[TOST(i)] < 0.0)
           {
             z = w;
@@ -891,8 +1052,10 @@ private:
           else
           {
             l = i;
+            BPP_EIGENVALUE_VERIF_BR(42, e_[TOST(i)] == 0.0);
             if (e_[TOST(i)] == 0.0)
             {
+              BPP_EIGENVALUE_VERIF_BR(43, w != 0.0);
               if (w != 0.0)
               {
                 H_(TOST(i), TOST(n)) = -r / w;
@@ -911,6 +1074,7 @@ private:
               q = (d_[TOST(i)] - p) * (d_[TOST(i)] - p) + e_[TOST(i)] * e_[TOST(i)];
               t = (x * s - z * r) / q;
               H_(TOST(i), TOST(n)) = t;
+              BPP_EIGENVALUE_VERIF_BR(44, NumTools::abs<Real>(x) > NumTools::abs<Real>(z));
               if (NumTools::abs<Real>(x) > NumTools::abs<Real>(z))
               {
                 H_(TOST(i + 1), TOST(n)) = (-r - w * t) / x;
@@ -930,6 +1094,7 @@ private:
               {
                 H_(TOST(j), TOST(n)) = H_(TOST(j), TOST(n)) / t;
               }
+              BPP_EIGENVALUE_VERIF_HIT(45);
             }
           }
         }
@@ -938,10 +1103,12 @@ private:
       }
       else if (q < 0)
       {
+        BPP_EIGENVALUE_VERIF_HIT(39);
         int l = n - 1;
 
         // Last vector component imaginary so matrix is triangular
 
+        BPP_EIGENVALUE_VERIF_BR(46, NumTools::abs<Real>(H_(TOST(n), TOST(n - 1))) > NumTools::abs<Real>(H_(TOST(n - 1), TOST(n))));
         if (NumTools::abs<Real>(H_(TOST(n), TOST(n - 1))) > NumTools::abs<Real>(H_(TOST(n - 1), TOST(n))))
         {
           H_(TOST(n - 1), TOST(n - 1)) = q / H_(TOST(n), TOST(n - 1));
@@ -967,6 +1134,7 @@ private:
           }
           w = H_(TOST(i), TOST(i)) - p;
 
+          BPP_EIGENVALUE_VERIF_BR(47, e_[TOST(i)] < 0.0);
           if (e_[TOST(i)] < 0.0)
           {
             z = w;
@@ -976,6 +1144,7 @@ private:
           else
           {
             l = i;
+            BPP_EIGENVALUE_VERIF_BR(48, e_[TOST(i)] == 0);
             if (e_[TOST(i)] == 0)
             {
               cdiv(-ra, -sa, w, q);
@@ -990,6 +1159,7 @@ private:
               y = H_(TOST(i + 1), TOST(i));
               vr = (d_[TOST(i)] - p) * (d_[TOST(i)] - p) + e_[TOST(i)] * e_[TOST(i)] - q * q;
               vi = (d_[TOST(i)] - p) * 2.0 * q;
+              BPP_EIGENVALUE_VERIF_BR(49, (vr == 0.0) && (vi == 0.0));
               if ((vr == 0.0) && (vi == 0.0))
               {
                 vr = eps * norm * (NumTools::abs<Real>(w) + NumTools::abs<Real>(q) +
@@ -998,6 +1168,7 @@ private:
               cdiv(x * r - z * ra + q * sa, x * s - z * sa - q * ra, vr, vi);
               H_(TOST(i), TOST(n - 1)) = cdivr;
               H_(TOST(i), TOST(n)) = cdivi;
+              BPP_EIGENVALUE_VERIF_BR(50, NumTools::abs<Real>(x) > (NumTools::abs<Real>(z) + NumTools::abs<Real>(q)));
               if (NumTools::abs<Real>(x) > (NumTools::abs<Real>(z) + NumTools::abs<Real>(q)))
               {
                 H_(TOST(i + 1), TOST(n - 1)) = (-ra - w * H_(TOST(i), TOST(n - 1)) + q * H_(TOST(i), TOST(n))) / x;
@@ -1013,6 +1184,7 @@ private:
 
             // Overflow control
             t = std::max(NumTools::abs<Real>(H_(TOST(i), TOST(n - 1))), NumTools::abs<Real>(H_(TOST(i), TOST(n))));
+            BPP_EIGENVALUE_VERIF_BR(51, (eps * t) * t > 1);
             if ((eps * t) * t > 1)
             {
               for (int j = i; j <= n; j++)
@@ -1081,6 +1253,9 @@ public:
       e_[i] = e[i];
     }
   }
+
+  const std::vector<unsigned long>& verifHits() const { return verifHits_; }
+  const std::vector<Real>& verifLog() const { return verifLog_; }
 #endif
 
 
@@ -1110,6 +1285,7 @@ public:
       }
     }
 
+    BPP_EIGENVALUE_VERIF_BR(53, issymmetric_);
     if (issymmetric_)
     {
       for (size_t i = 0; i < n_; i++)
